@@ -31,12 +31,13 @@ Section Proto.
 Variable ip6 : str -> option str.
 Variable handler : str -> hres.
 Variable has_mw has_upload : bool.
+Variable up_call_fails : option str.
 Variable peer_ip : str.
 Variable peer_fp : option str.
 
-Notation step := (step ip6 handler has_mw has_upload peer_ip peer_fp).
-Notation run := (run ip6 handler has_mw has_upload peer_ip peer_fp).
-Notation final := (final ip6 handler has_mw has_upload peer_ip peer_fp).
+Notation step := (step ip6 handler has_mw has_upload up_call_fails peer_ip peer_fp).
+Notation run := (run ip6 handler has_mw has_upload up_call_fails peer_ip peer_fp).
+Notation final := (final ip6 handler has_mw has_upload up_call_fails peer_ip peer_fp).
 
 (* after a timer event the timer is not armed *)
 Lemma timer_step_not_armed s : timer (fst (step s ETimer)) <> TArmed.
@@ -50,7 +51,7 @@ Proof.
   induction evs as [|e r IH]; intros s H; [discriminate|].
   rewrite final_cons. unfold has_timer in H. cbn [existsb] in H. apply orb_true_iff in H as [H|H].
   - destruct e; try discriminate.
-    apply (final_timer_mono ip6 handler has_mw has_upload peer_ip peer_fp). apply timer_step_not_armed.
+    apply (final_timer_mono ip6 handler has_mw has_upload up_call_fails peer_ip peer_fp). apply timer_step_not_armed.
   - apply IH. exact H.
 Qed.
 
@@ -62,17 +63,17 @@ Lemma timer_quiescent_answered evs :
   (let (w, closed) := wire (flat (run init evs)) in (match w with [] => false | _ => true end) && closed) = true.
 Proof.
   intros L HT O Q.
-  pose proof (quiescent_no_pending ip6 handler has_mw has_upload peer_ip peer_fp evs Q) as P.
-  pose proof (Inv_final ip6 handler has_mw has_upload peer_ip peer_fp evs init (Inv_init has_upload)) as I.
+  pose proof (quiescent_no_pending ip6 handler has_mw has_upload up_call_fails peer_ip peer_fp evs Q) as P.
+  pose proof (Inv_final ip6 handler has_mw has_upload up_call_fails peer_ip peer_fp evs init (Inv_init has_upload)) as I.
   assert (N : NS (final init evs)).
-  { apply (NS_final ip6 handler has_mw has_upload peer_ip peer_fp); auto.
+  { apply (NS_final ip6 handler has_mw has_upload up_call_fails peer_ip peer_fp); auto.
     - apply Inv_init.
     - right; left; split; [reflexivity|left; reflexivity]. }
   assert (C : closing (final init evs) = true).
   { destruct N as [N|[[A _]|N]]; [exact N| |contradiction].
     exfalso. exact (has_timer_not_armed evs init HT A). }
   rewrite <- (i_sent _ _ I) in C.
-  destruct (W_run ip6 handler has_mw has_upload peer_ip peer_fp evs evs (fun e H => H) init)
+  destruct (W_run ip6 handler has_mw has_upload up_call_fails peer_ip peer_fp evs evs (fun e H => H) init)
     as [[H1 H2]|[H1 [H2 [r [H3 H4]]]]].
   - cbn in H2. congruence.
   - rewrite wire_wc, H3, wire_resp_acts.
@@ -95,32 +96,32 @@ End Proto.
 
 (* the statement of Props/C01.v (C01_timeout_obligation_partial) *)
 Lemma timeout_obligation_partial : forall ip6 c evs,
-  valid_reads evs (run ip6 (fun _ => c_hres c) (c_mw c) (c_upload c) (c_ip c) (c_fp c) init evs) false = true ->
+  valid_reads evs (run ip6 (fun _ => c_hres c) (c_mw c) (c_upload c) (c_upfail c) (c_ip c) (c_fp c) init evs) false = true ->
   existsb (fun a => match a with AOutOfModel => true | _ => false end)
-          (flat (run ip6 (fun _ => c_hres c) (c_mw c) (c_upload c) (c_ip c) (c_fp c) init evs)) = false ->
+          (flat (run ip6 (fun _ => c_hres c) (c_mw c) (c_upload c) (c_upfail c) (c_ip c) (c_fp c) init evs)) = false ->
   Spec.C01.clause_timeout_obligation ip6 c evs
-    (run ip6 (fun _ => c_hres c) (c_mw c) (c_upload c) (c_ip c) (c_fp c) init evs) = true.
+    (run ip6 (fun _ => c_hres c) (c_mw c) (c_upload c) (c_upfail c) (c_ip c) (c_fp c) init evs) = true.
 Proof.
   intros ip6 c evs _.
-  exact (timeout_obligation_partial_gen ip6 (fun _ => c_hres c) (c_mw c) (c_upload c) (c_ip c) (c_fp c) c evs).
+  exact (timeout_obligation_partial_gen ip6 (fun _ => c_hres c) (c_mw c) (c_upload c) (c_upfail c) (c_ip c) (c_fp c) c evs).
 Qed.
 Print Assumptions timeout_obligation_partial.
 
 (* stronger facts about the model: the valid_reads hypothesis is not used, the handler / configuration need not be
    those of c, and the trigger can be weakened to "some ETimer occurs in the schedule" *)
-Lemma timeout_obligation_partial_strong : forall ip6 handler mw up ip fp c evs,
+Lemma timeout_obligation_partial_strong : forall ip6 handler mw up ucf ip fp c evs,
   existsb (fun a => match a with AOutOfModel => true | _ => false end)
-          (flat (run ip6 handler mw up ip fp init evs)) = false ->
-  Spec.C01.clause_timeout_obligation ip6 c evs (run ip6 handler mw up ip fp init evs) = true.
+          (flat (run ip6 handler mw up ucf ip fp init evs)) = false ->
+  Spec.C01.clause_timeout_obligation ip6 c evs (run ip6 handler mw up ucf ip fp init evs) = true.
 Proof. intros. apply timeout_obligation_partial_gen. assumption. Qed.
 Print Assumptions timeout_obligation_partial_strong.
 
-Lemma timeout_obligation_any_timer : forall ip6 handler mw up ip fp evs,
+Lemma timeout_obligation_any_timer : forall ip6 handler mw up ucf ip fp evs,
   has_lost evs = false -> has_timer evs = true ->
   existsb (fun a => match a with AOutOfModel => true | _ => false end)
-          (flat (run ip6 handler mw up ip fp init evs)) = false ->
-  Spec.C01.quiescent evs (run ip6 handler mw up ip fp init evs) = true ->
-  (let (w, closed) := wire (flat (run ip6 handler mw up ip fp init evs)) in
+          (flat (run ip6 handler mw up ucf ip fp init evs)) = false ->
+  Spec.C01.quiescent evs (run ip6 handler mw up ucf ip fp init evs) = true ->
+  (let (w, closed) := wire (flat (run ip6 handler mw up ucf ip fp init evs)) in
    (match w with [] => false | _ => true end) && closed) = true.
 Proof. intros. apply timer_quiescent_answered; assumption. Qed.
 Print Assumptions timeout_obligation_any_timer.
